@@ -89,6 +89,9 @@ func (r *ParticipationRegistry) UnmarshalJSON(data []byte) error {
 }
 
 func (r ParticipationRegistry) MarshalJSON() ([]byte, error) {
+	if r == nil {
+		return []byte("[]"), nil // encode as empty list, not null
+	}
 	return json.Marshal([]ParticipationFlags(r))
 }
 
